@@ -56,6 +56,38 @@ pub struct Event {
     pub ring_size: Option<u16>,
 }
 
+/// state of one ring as sampled inside the worker at barrier time
+#[derive(Clone, Debug, Default, PartialEq, Eq, serde::Serialize)]
+pub struct QueueSnap {
+    pub size: u16,
+    pub max_size: u16,
+    pub ready: bool,
+    pub enabled: bool,
+    pub next_avail: u16,
+    pub next_used: u16,
+    pub desc: u64,
+    pub avail: u64,
+    pub used: u64,
+    pub event_idx: bool,
+}
+
+pub fn snap_of<V: VringT<GM>>(v: &V) -> QueueSnap {
+    let g = v.get_ref();
+    let q = g.get_queue();
+    QueueSnap {
+        size: q.size(),
+        max_size: q.max_size(),
+        ready: q.ready(),
+        enabled: g.is_enabled(),
+        next_avail: q.next_avail(),
+        next_used: q.next_used(),
+        desc: q.desc_table(),
+        avail: q.avail_ring(),
+        used: q.used_ring(),
+        event_idx: q.event_idx_enabled(),
+    }
+}
+
 pub type EventHook<V> = Arc<dyn Fn(&Be<V>, u16, &[V], usize) + Send + Sync>;
 
 pub struct BeState<V> {
@@ -71,6 +103,10 @@ pub struct BeState<V> {
     pub hook: Option<EventHook<V>>,
     pub barrier_fds: Vec<Option<EventConsumer>>,
     pub custom: Vec<(u16, usize)>,
+    /// per worker thread: ring states sampled at the latest barrier (thread's own ring slice)
+    pub snaps: Vec<Vec<QueueSnap>>,
+    /// hook run inside the worker at barrier time (C14: ring operations issued by the backend)
+    pub barrier_hook: Option<EventHook<V>>,
 }
 
 pub struct Be<V> {
@@ -100,6 +136,8 @@ impl<V> Be<V> {
                 hook: None,
                 barrier_fds: (0..nthreads).map(|_| None).collect(),
                 custom: Vec::new(),
+                snaps: (0..nthreads).map(|_| Vec::new()).collect(),
+                barrier_hook: None,
             }),
             cv: Condvar::new(),
             seq: AtomicU64::new(0),
@@ -185,11 +223,20 @@ impl<V: VringT<GM> + Send + Sync + 'static> VhostUserBackend for Be<V> {
     fn handle_event(&self, device_event: u16, _evset: EventSet, vrings: &[V], thread_id: usize) -> std::io::Result<()> {
         self.handle_event_calls.fetch_add(1, Ordering::SeqCst);
         if device_event as u64 == self.barrier_id() {
-            let st = self.st.lock().unwrap();
-            if let Some(Some(c)) = st.barrier_fds.get(thread_id) {
-                let _ = c.consume();
+            let hook = {
+                let st = self.st.lock().unwrap();
+                if let Some(Some(c)) = st.barrier_fds.get(thread_id) {
+                    let _ = c.consume();
+                }
+                st.barrier_hook.clone()
+            };
+            if let Some(h) = hook {
+                h(self, device_event, vrings, thread_id);
             }
-            drop(st);
+            let snaps: Vec<QueueSnap> = vrings.iter().map(snap_of).collect();
+            if let Some(slot) = self.st.lock().unwrap().snaps.get_mut(thread_id) {
+                *slot = snaps;
+            }
             if let Some(d) = self.barrier_done.get(thread_id) {
                 d.fetch_add(1, Ordering::SeqCst);
             }
@@ -272,6 +319,14 @@ impl<V: VringT<GM> + Clone + Send + Sync + 'static> Fx<V> {
         Ok(())
     }
 
+    /// after the daemon thread ended (request error / disconnect): reap it and serve a new connection
+    pub fn reconnect(&mut self) -> Result<(), String> {
+        self.peer.take();
+        let _ = self.daemon.as_mut().unwrap().wait();
+        let _ = std::fs::remove_file(&self.path);
+        self.connect()
+    }
+
     pub fn frontend(&self, max_queues: u64) -> Frontend {
         let dup = self.peer.as_ref().expect("connected").try_clone().expect("dup");
         Frontend::from_stream(dup, max_queues)
@@ -325,6 +380,8 @@ impl<V: VringT<GM> + Clone + Send + Sync + 'static> Drop for Fx<V> {
     fn drop(&mut self) {
         self.peer.take();
         if let Some(mut d) = self.daemon.take() {
+            // other duplicates of the harness end may still be open: make sure the daemon thread ends
+            d.request_shutdown();
             let _ = d.wait();
         }
         let _ = std::fs::remove_file(&self.path);
